@@ -751,12 +751,15 @@ fn total(rep: &mut Report) {
         ("<T, U>", "where T: Clone", "(T, U)"),
         ("<const N: usize = 4>", "", "[i32; N]"),
         ("<T, const N: usize = 2>", "", "[T; N]"),
-        ("<'a, 'b: 'a, T: 'a>", "", "&'a std::borrow::Cow<'b, T>"),
+        ("<'a, 'b: 'a, T: Clone + 'a>", "", "&'a std::borrow::Cow<'b, T>"),
     ];
     let idents: &[&str] = &["Item", "__", "_1", "é", "Ünï", "r#type", "r#fn"];
     let field_tys: &[&str] = &["i32", "Option<String>", "Vec<i32>", "Box<Item2>", "()"];
     let mut case_no = 0usize;
 
+    let mut dump: Option<std::fs::File> = std::env::var("TSRS_E1_DUMP").ok().map(|p| {
+        std::fs::File::create(format!("{p}.{si}")).expect("create dump file")
+    });
     let mut run_case = |rep: &mut Report, src: String, is_struct: bool, cf: Fields, vf: Option<Fields>, placed: &[Placed], spelling: &str| {
         case_no += 1;
         if case_no % sn != si {
@@ -786,7 +789,32 @@ fn total(rep: &mut Report) {
                 class("valid-combination-rejected"),
                 jobj(&[("src", jstr(&src)), ("shape", jstr(&shape)), ("error", jstr(e))]),
             ),
-            (Obs::Ok(_), _) => rep.count("expanded", 1),
+            (Obs::Ok(_), _) => {
+                rep.count("expanded", 1);
+                // hand accepted items to rustc (E2 `accepted` corpus): ts spelling only (a serde
+                // attribute needs serde's derive), no `bound`/`concrete` naming an undeclared
+                // parameter, no `optional` on a non-Option (designed IsOption diagnostic)
+                if let Some(dump) = dump.as_mut() {
+                    let max = if thorough() { 2 } else { 1 };
+                    // `bound` replaces the generated bounds altogether: the user's responsibility
+                    let names_param = |p: &Placed| matches!(p.opt.key, "concrete");
+                    if placed.iter().any(|p| p.opt.key == "bound") {
+                        return;
+                    }
+                    let generic_t = src.contains("<T") || src.contains(", T");
+                    let optional_ok = !placed.iter().any(|p| p.opt.key == "optional" || p.opt.key == "optional_fields") || src.contains("Option<");
+                    if spelling == "ts"
+                        && placed.len() <= max
+                        && (placed.len() <= 1 || placed.iter().all(|p| p.opt.form == "valid"))
+                        && (generic_t || !placed.iter().any(names_param))
+                        && optional_ok
+                        && !src.contains("crate = ")
+                    {
+                        use std::io::Write;
+                        let _ = writeln!(dump, "{}", jobj(&[("src", jstr(&src)), ("keys", jarr(&keys.iter().map(|k| jstr(k)).collect::<Vec<_>>()))]));
+                    }
+                }
+            }
             (Obs::Err(_), _) => rep.count("diagnosed", 1),
         }
         if rep.samples.len() < 6 && case_no % 7919 == 0 {
